@@ -219,7 +219,9 @@ def r2(R, repo):
   calls = [x for x in astu.func_calls(uf) if astu.call_name(x) == 'axis_fn']
   argsets = sorted([astu.src(a) for a in x.args] for x in calls)
   ok = len(calls) == 2 and argsets == sorted([['state', 'node_states.metadata', 'transform_metadata'], ['state', 'axis', 'transform_metadata']])
-  R.judge(len(calls) == 2 and all(len(x.args) == 3 for x in calls), ok, key_of(uf, 'axis_fn(state, its own axis, transform_metadata)'), uf, '_update_axes_fn must call axis_fn with each state and the axis declared for that state')
+  exp_sets = sorted(sorted(x_) for x_ in (['state', 'node_states.metadata', 'transform_metadata'], ['state', 'axis', 'transform_metadata']))
+  permuted = len(calls) == 2 and sorted(sorted(a_) for a_ in argsets) == exp_sets  # the expected arguments, possibly in another order
+  R.judge(permuted, ok, key_of(uf, 'axis_fn(state, its own axis, transform_metadata)'), uf, '_update_axes_fn must call axis_fn with each state and the axis declared for that state')
 
 
 @rule('C19.R3', 'K1', 4, 'assigning to a boxed variable re-boxes the value; helpers map only over AxisMetadata leaves')
